@@ -27,6 +27,8 @@ def massy_annotation(rnd, maxlen=40, labels=False, intervals=True):
                           p={"isotope": 0, "static": 0, "charge": 0, "unknown": 0.25, "labile": 0.25, "interval": 0.3})
     if rnd.random() < 0.3:
         A["static"] = [{"v": "s:" + s, "m": 1} for s in rnd.sample(anngen.STATICS_MASSY, rnd.choice([1, 1, 2]))]
+    if labels and rnd.random() < 0.2:
+        A["isotope"] = [{"v": "s:" + rnd.choice(["13C", "15N", "18O", "D", "34S"]), "m": 1}]
     if rnd.random() < 0.4:
         A["charge"] = rnd.choice([-4, -3, -2, -1, 1, 2, 3, 4, 5, 6])
         if rnd.random() < 0.4:
@@ -44,9 +46,10 @@ def mass_event(pp, tid, A, call_, zarg, adducts_arg, mono, iso, loss, prec, via)
         kw["charge_adducts"] = adducts_arg
     f = pp.mass if call_ == "mass" else pp.mz
     o, r = call(lambda: f(seq, **kw))
+    o2, r2 = call(lambda: f(seq, **kw))      # the same call again on the same object / string
     return {"tid": tid, "k": "mass", "A": A, "text": text, "call": call_, "zarg": zarg, "adductsArg": adducts_arg,
             "mono": mono, "iso": iso, "loss": fix(loss), "prec": prec, "via": via, "out": o,
-            "res": fix(r) if o == "ret" else [0, 0]}
+            "res": fix(r) if o == "ret" else [0, 0], "res2": fix(r2) if o2 == "ret" else [-1, 0]}
 
 
 def row_event(pp, tid, row, slot, mult, mono, spelling):
@@ -90,7 +93,7 @@ def run(tier, seed, rep):
     rep.add_mc("MC_Mass (laws of the reference mass: additivity, linearity in multipliers, slot invariance, m/z)", r)
     evs = []
     for i in range(30000 if thorough else 3500):
-        A = massy_annotation(rnd, 40 if i % 4 == 0 else 8)
+        A = massy_annotation(rnd, 40 if i % 4 == 0 else 8, labels=True)
         zarg = rnd.choice([NOARG, NOARG, 0, 1, 2, 3, -1, -2, -4, 6])
         adducts_arg = adduct_string(rnd) if rnd.random() < 0.15 else ""
         mono = rnd.random() < 0.6
